@@ -79,8 +79,11 @@ def stored_cliques(init):
     if len(stores) != 1:
         raise AnalysisError('JunctionTree.__init__: store to self.cliques not found')
 
+    from ..srcmodel import alpha_text, alpha_of
+    ABASES = {alpha_of(b) for b in BASES}
+
     def is_base(e, depth=0):
-        if U(e) in BASES:
+        if U(e) in BASES or alpha_text(e) in ABASES:
             return True
         if isinstance(e, ast.Name) and depth < 4:
             ds = assigns.get(e.id, [])
@@ -208,7 +211,8 @@ def check_cliques(ctx):
     ok = False
     if tri and cl:
         v = cl[-1].value
-        t = U(v).replace(' ', '')
+        from ..srcmodel import alpha_text
+        t = alpha_text(v).replace('_c0', 'c')
         ok = t in ('sorted([self.domain.canonical(c)forcinnx.find_cliques(%s)])' % tri[0],
                    '[self.domain.canonical(c)forcinnx.find_cliques(%s)]' % tri[0],
                    'sorted((self.domain.canonical(c)forcinnx.find_cliques(%s)))' % tri[0])
@@ -322,6 +326,7 @@ def check_modes(ctx):
     INT = ('type(%s)isint' % p, 'isinstance(%s,int)' % p, 'type(%s)==int' % p)
     greedy = 'self._greedy_order(stochastic=False)'
     stoch = '[self._greedy_order(stochastic=True)for_inrange(%s)]' % p
+    comp_var = re.compile(r'\[self\._greedy_order\(stochastic=True\)for\w+inrange\(')
     key = r'(lambdax:x\[1\]|itemgetter\(1\)|operator\.itemgetter\(1\))'
     pat = re.compile(r'min\((\[%s\]\+%s|%s\+\[%s\]),key=%s\)\[0\]' % (re.escape(greedy), re.escape(stoch), re.escape(stoch), re.escape(greedy), key))
     ok_none = ok_int = ok_given = False
@@ -331,7 +336,7 @@ def check_modes(ctx):
         if any(c in NONE and pol for c, pol in conds):
             ok_none = t == greedy + '[0]'
         elif any(c in INT and pol for c, pol in conds):
-            ok_int = pat.fullmatch(t) is not None
+            ok_int = pat.fullmatch(comp_var.sub('[self._greedy_order(stochastic=True)for_inrange(', t)) is not None
         else:
             ok_given = t == p
     ctx.ob('order-modes', fi, fi.node, ok_none, 'order None selects the deterministic greedy order; the triangulation eliminates `%s`' % U(used)[:200],
@@ -499,8 +504,8 @@ def check_schedule(ctx):
 def check_separators(ctx):
     sep = ctx.repo.nfunc(JT, 'JunctionTree.separator_axes')
     rets = [r for r in walk_shallow(sep.node) if isinstance(r, ast.Return)]
-    ok = bool(rets) and U(rets[-1].value).replace(' ', '') in ('{(i,j):tuple(set(i)&set(j))for(i,j)inself.mp_order()}',
-                                                                '{(i,j):tuple(set(i)&set(j))fori,jinself.mp_order()}')
+    from ..srcmodel import alpha_text, alpha_of
+    ok = bool(rets) and alpha_text(rets[-1].value) == alpha_of('{(i, j): tuple(set(i) & set(j)) for i, j in self.mp_order()}')
     ctx.ob('separators', sep, rets[-1] if rets else sep.node, ok, 'the separator of message (i,j) is the intersection of cliques i and j')
     mc = ctx.repo.nfunc(JT, 'JunctionTree.maximal_cliques')
     nb = ctx.repo.nfunc(JT, 'JunctionTree.neighbors')
